@@ -215,9 +215,9 @@ DEFAULT_OPTS = dict(neg=True, preds=True, member=True, calls=True, index=True, s
 def _num_paths(kind):
     if kind in ("P", "E"):
         return [[["a", "a"]], [["a", "b"]], [["a", "d"], ["i", "k"]], [["c", "inc", []]], [["c", "getb", []]],
-                [["a", "t"], ["i", 0]]]
+                [["a", "t"], ["i", 0]], [["c", "pt", []], ["a", "x"]]]
     return [[["a", "a"]], [["a", "b"]], [["a", "p"], ["a", "a"]], [["a", "p"], ["a", "b"]], [["c", "inc", []]],
-            [["a", "p"], ["a", "d"], ["i", "k"]]]
+            [["a", "p"], ["a", "d"], ["i", "k"]], [["c", "pt", []], ["a", "x"]]]
 
 
 def gen_num(rng, kinds, o, allow_lit=True):
@@ -298,8 +298,11 @@ def gen_leaf(rng, kinds, o):
             return ["truth", ["v", vi, [["ck", "big", {"k": rng.randint(0, 3)}]]]]
         if kk < 0.6 and o["strings"]:
             return ["truth", ["v", vi, pp + [["a", "s"], ["c", "startswith", [rng.choice(["x", "y", "xy"])]]]]]
-        if kk < 0.8:
+        if kk < 0.7:
             return ["truth", ["v", vi, pp + [["a", "flag"]]]]
+        if kk < 0.8:
+            # truth values that are not bools (2 != True, "x" != True): only bool() of them counts
+            return ["truth", ["v", vi, rng.choice([[["a", "a"]], [["a", "b"]], pp + [["a", "s"]], pp + [["a", "t"]]])]]
         return ["truth", ["v", vi, pp + [["c", "has", [rng.randint(0, 4)]]]]]
     if k < 0.94 and o["preds"]:
         kk = rng.random()
